@@ -63,16 +63,28 @@ func C05(c *sim.Ctx) {
 	var images []crashImage
 	var ops []opRecord
 	cur := -1
+	readErrOp, readErrAt, readErrBucket := -1, 0, -1
 	if class != 2 {
 		n.FDB.Plan.AfterCommit = func(k int) {
 			images = append(images, crashImage{kind: "after_commit", commit: k, st: n.St.CrashImage(c), opIdx: cur})
 		}
 	} else {
 		// error injection: one failing write or commit at a tape-chosen event index
-		if t.Draw("err.kind", 2) == 0 {
+		switch t.Draw("err.kind", 4) {
+		case 0:
 			n.FDB.Plan.FailCommitAt = 1 + t.Draw("err.at", nOps+2)
-		} else {
+		case 1:
 			n.FDB.Plan.FailWriteAt = 1 + t.Draw("err.at", 40*nOps)
+		case 3:
+			// the first read of a tape-chosen bucket (first key byte) from a tape-chosen operation on fails
+			readErrOp = t.Draw("err.read.op", nOps)
+			readErrBucket = t.Draw("err.read.bucket", 64)
+		default:
+			// one failing READ (Get/Has) inside a tape-chosen operation: the statement names failing writes;
+			// a transient read error while a block is stored, reverted or pruned is the same kind of fault
+			// (an I/O error reported by the database) and is held to the same three demands
+			readErrOp = t.Draw("err.read.op", nOps)
+			readErrAt = 1 + t.Draw("err.read.at", 60)
 		}
 	}
 	rewire := func(nn *Node) {
@@ -164,14 +176,25 @@ func C05(c *sim.Ctx) {
 			imgBefore, err = faultdb.Image(n.FDB.Inner)
 			c.Must(err, "image before op")
 		}
+		if readErrOp >= 0 && i >= readErrOp {
+			// armed from the chosen operation on until one operation reads that often
+			if readErrBucket >= 0 {
+				bk := byte(readErrBucket)
+				n.FDB.Plan.FailReadMatch = func(key []byte) bool { return len(key) > 0 && key[0] == bk }
+			} else {
+				n.FDB.Plan.FailReadAt = n.FDB.Reads + readErrAt
+			}
+		}
 		n.FDB.Paused = false
 		err := apply()
 		n.FDB.Paused = true
+		n.FDB.Plan.FailReadAt, n.FDB.Plan.FailReadMatch = 0, nil
 		switch {
 		case err == nil:
 			onOK()
 		case faultdb.IsInjected(err) && class == 2:
 			faultsFired++
+			readErrOp = -1
 			for _, f := range n.FDB.Fired {
 				c.Fault(f)
 			}
